@@ -21,6 +21,7 @@ type Program struct {
 	RepoDir string
 	Funcs   map[string]*ssa.Function // full key -> function (module functions + everything reachable by name)
 	byPkg   map[string]*ssa.Package
+	sentinels map[*ssa.Global]int
 }
 
 func funcKey(fn *ssa.Function) string {
@@ -225,4 +226,64 @@ func (p *Program) LookupType(defPkg *types.Package, name string) types.Type {
 		}
 	}
 	return nil
+}
+
+// sentinelError reports whether g is a package-level variable that the package initialiser sets to
+// the result of errors.New / fmt.Errorf and that no other instruction of the loaded module stores to.
+func (p *Program) sentinelError(g *ssa.Global) bool {
+	if p.sentinels == nil {
+		p.sentinels = map[*ssa.Global]int{}
+		initStores := map[*ssa.Global]bool{}
+		for _, fn := range p.Funcs {
+			if fn.Synthetic == "package initializer" {
+				continue
+			}
+			for _, b := range fn.Blocks {
+				for _, ins := range b.Instrs {
+					if st, ok := ins.(*ssa.Store); ok {
+						if gg, ok := st.Addr.(*ssa.Global); ok {
+							p.sentinels[gg]++
+						}
+					}
+				}
+			}
+		}
+		for _, sp := range p.byPkg {
+			initFn := sp.Func("init")
+			if initFn == nil {
+				continue
+			}
+			for _, b := range initFn.Blocks {
+				for _, ins := range b.Instrs {
+					st, ok := ins.(*ssa.Store)
+					if !ok {
+						continue
+					}
+					gg, ok := st.Addr.(*ssa.Global)
+					if !ok {
+						continue
+					}
+					val := st.Val
+					if mi, ok := val.(*ssa.MakeInterface); ok {
+						val = mi.X
+					}
+					if c, ok := val.(*ssa.Call); ok {
+						if callee := c.Common().StaticCallee(); callee != nil {
+							k := funcKey(callee)
+							if k == "errors.New" || k == "fmt.Errorf" {
+								initStores[gg] = true
+							}
+						}
+					}
+				}
+			}
+		}
+		for gg := range initStores {
+			// the init function is not in p.Funcs (synthetic), so module-wide stores must be zero
+			if p.sentinels[gg] == 0 {
+				p.sentinels[gg] = -1
+			}
+		}
+	}
+	return p.sentinels[g] == -1
 }
